@@ -599,37 +599,98 @@ def _combinator_result(facts, ev, b, argvals):
                 order = [F.var_of(x) for x in els]
     if order is None or sorted(order, key=str) != sorted(avars, key=str):
         return None
-    # the call f(arrays[i][..], arrays[j][..]) inside the nested closures
-    pair = None
+    # every call f(p, q) inside the nested closures: p and q must each be an element of arrays[0] / arrays[1]
+    # (directly `arrays[i][..]`, a let of that, or a pattern variable of a zip over the operand slices)
+    pairs = []
     for nb in facts.nested(b):
         if nb is b:
             continue
         cps = [p for p in facts.params(nb) if p.get("pat")]
         arrays_var = cps[1]["pat"].get("v") if len(cps) >= 2 and cps[1]["pat"].get("k") == "Binding" else None
-        for n in walk(facts.root(nb)):
+        if arrays_var is None:
+            continue
+        origin = {}
+
+        def operand_of(x, depth=0):
+            """index of the operand slice an expression takes an element from, or None"""
+            x = peel(x)
+            if not isinstance(x, dict) or depth > 6:
+                return None
+            if x.get("k") in ("VarRef", "UpvarRef"):
+                return origin.get(x["v"])
+            if x.get("k") == "Index":
+                inner = peel(x["e"])
+                if isinstance(inner, dict) and inner.get("k") == "Index" and F.var_of(inner["e"]) == arrays_var:
+                    return lit_value(inner["i"])
+                return operand_of(x["e"], depth + 1)
+            if x.get("k") == "Call" and callee(x) in ("core::ops::index::Index::index",) and len(x["args"]) == 2:
+                return operand_of(x["args"][0], depth + 1)
+            return None
+
+        def slice_of(x):
+            """index i if the iterator expression runs over arrays[i]"""
+            x = peel(x)
+            while isinstance(x, dict) and x.get("k") == "Call" and (callee(x) or "") in (
+                    "core::slice::<impl [T]>::iter", "core::iter::traits::collect::IntoIterator::into_iter", "core::iter::traits::iterator::Iterator::copied",
+                    "core::iter::traits::iterator::Iterator::cloned", "core::ops::deref::Deref::deref") and x["args"]:
+                x = peel(x["args"][0])
+            if isinstance(x, dict) and x.get("k") == "Index" and F.var_of(x["e"]) == arrays_var:
+                return lit_value(x["i"])
+            return None
+
+        def zip_sources(x):
+            x = peel(x)
+            if isinstance(x, dict) and x.get("k") == "Call" and callee(x) == "core::iter::traits::iterator::Iterator::zip" and len(x["args"]) == 2:
+                return zip_sources(x["args"][0]) + [x["args"][1]]
+            if isinstance(x, dict) and x.get("k") == "Call" and callee(x) in ("core::iter::traits::collect::IntoIterator::into_iter",) and x["args"]:
+                return zip_sources(x["args"][0])
+            return [x]
+
+        def zip_pattern(p):
+            while isinstance(p, dict) and p.get("k") in ("Deref", "DerefPattern"):
+                p = p["sub"]
+            if isinstance(p, dict) and p.get("k") == "Leaf" and len(p["subs"]) == 2:
+                return zip_pattern(p["subs"][0]["pat"]) + [p["subs"][1]["pat"]]
+            return [p]
+        root_nb = facts.root(nb)
+        for n in walk(root_nb):
+            if n.get("k") == "Block":
+                for st in n["stmts"]:
+                    if st["s"] == "let" and st["pat"].get("k") == "Binding" and st.get("init") is not None:
+                        o = operand_of(st["init"])
+                        if o is not None:
+                            origin[st["pat"]["v"]] = o
+            fl = F.for_loop_parts(n)
+            if fl:
+                srcs, pats = zip_sources(fl[0]), zip_pattern(fl[1])
+                if len(srcs) == len(pats):
+                    for sx, px in zip(srcs, pats):
+                        si = slice_of(sx)
+                        if si is not None:
+                            for v, _, _, _ in F.pat_bindings(px):
+                                origin[v] = si
+        for n in walk(root_nb):
             if n.get("k") == "Call" and callee(n) in ("core::ops::function::Fn::call", "core::ops::function::FnMut::call_mut") and F.var_of(n["args"][0]) == fvar:
                 t = strip(n["args"][1])
                 if t.get("k") == "Tuple" and len(t["fields"]) == 2:
-                    idxs = []
-                    for fld in t["fields"]:
-                        x = peel(fld)
-                        inner = peel(x["e"]) if isinstance(x, dict) and x.get("k") == "Index" else None
-                        if isinstance(inner, dict) and inner.get("k") == "Index" and F.var_of(inner["e"]) == arrays_var:
-                            idxs.append(lit_value(inner["i"]))
-                        else:
-                            idxs.append(None)
-                    pair = idxs
-    if pair is None or None in pair:
+                    pairs.append([operand_of(fld) for fld in t["fields"]])
+                else:
+                    pairs.append([None, None])
+    if not pairs or any(None in p_ for p_ in pairs):
         return None
-    vals = []
-    for i in pair:
-        v = order[i]
-        a = argvals[aidx[avars.index(v)]]
-        if a[0] != "arr":
-            return ("unk", "combinator operand is %s" % a[0])
-        vals.append(("s", a[1]))
-    out = ev.apply(argvals[fidx[0]], vals)
-    outs = [("arr", x[1]) if x[0] == "s" else ("unk", x[1] if x[0] == "unk" else "combinator result %s" % x[0]) for x in ev.alts(out)]
+    outs = []
+    for pair in pairs:
+        vals = []
+        for i in pair:
+            if not isinstance(i, int) or not (0 <= i < len(order)):
+                return None
+            v = order[i]
+            a = argvals[aidx[avars.index(v)]]
+            if a[0] != "arr":
+                return ("unk", "combinator operand is %s" % a[0])
+            vals.append(("s", a[1]))
+        out = ev.apply(argvals[fidx[0]], vals)
+        outs.extend(("arr", x[1]) if x[0] == "s" else ("unk", x[1] if x[0] == "unk" else "combinator result %s" % x[0]) for x in ev.alts(out))
     return ev.mk_alt(outs)
 
 
